@@ -451,8 +451,10 @@ func (m *Machine) assertProp(v value, label string) {
 		panic(engineFault(fmt.Sprintf("assert: %T", v)))
 	}
 	r := smt.Sat
+	pushed := false
 	if !neg.IsTrue() {
 		r = p.check(neg)
+		pushed = true
 	} else {
 		// need a model of pc
 		rr, err := p.solver.CheckSat()
@@ -461,7 +463,6 @@ func (m *Machine) assertProp(v value, label string) {
 			rr = smt.Unknown
 		}
 		r = rr
-		p.solver.Cmd("(push 1)")
 	}
 	switch r {
 	case smt.Sat:
@@ -474,7 +475,9 @@ func (m *Machine) assertProp(v value, label string) {
 	case smt.Unknown:
 		p.res.Inconcl = append(p.res.Inconcl, "unknown at assert "+label+" "+m.where())
 	}
-	p.popCheck()
+	if pushed {
+		p.popCheck()
+	}
 	// continue under the assumption that the assertion held
 	if neg.IsTrue() {
 		panic(pathEnd{"assert-failed"})
